@@ -6,6 +6,7 @@ import (
 	"sync"
 	"crypto/aes"
 	"crypto/cipher"
+	"context"
 	"encoding/base64"
 	"encoding/hex"
 	"fmt"
@@ -628,11 +629,11 @@ func vLoadCase(out *vEmitter, e *vEnv, host string, m vMut, own []vNV, sOwn *ses
 	o := e.opts.Cookie
 	cfg := vL(vS(o.Name), vS(o.Path), vStrs(o.Domains), vBool(o.Secure), vBool(o.HTTPOnly), vI(0), vI(int64(o.Expire)))
 	macs := vMacsFor(o.Secret, []string{name}, pcs)
+	key := vNone
 	if e.redis == nil {
 		out.Case("cookie/"+m.label, true, vBool(accepted),
 			vL("cs_load_ok", vTable(macs), cfg, vNVsx(pcs), vI(t0), vI(t1)))
 	} else {
-		key := vNone
 		for _, op := range e.redis.Ops() {
 			if op.Kind == "get" {
 				key = vSome(vS(op.Key))
@@ -640,6 +641,37 @@ func vLoadCase(out *vEmitter, e *vEnv, host string, m vMut, own []vNV, sOwn *ses
 		}
 		out.Case("ticket/"+m.label, true, key,
 			vL("ticket_key", vTable(macs), cfg, vNVsx(pcs), vI(t0), vI(t1)))
+	}
+	if e.redis != nil {
+		// a save on the same request (what the callback and a refresh do): the entry is written under the presented
+		// ticket only if that cookie validates, else under a fresh one
+		e.redis.ResetOps()
+		cp := *sOwn
+		rw := httptest.NewRecorder()
+		s0 := time.Now().UnixNano()
+		serr := e.p.sessionStore.Save(rw, vReqWith(host, m.cs), &cp)
+		s1 := time.Now().UnixNano()
+		written := ""
+		for _, op := range e.redis.Ops() {
+			if op.Kind == "set" {
+				written = op.Key
+			}
+		}
+		planted := vPresentedTicketID(name, pcs)
+		reused := vNone
+		if serr == nil && written != "" && written == planted {
+			reused = vSome(vS(written))
+		}
+		out.Case("ticket-save/"+m.label, true, reused, vL("ticket_key", vTable(macs), cfg, vNVsx(pcs), vI(s0), vI(s1)))
+		if reused != vNone && key == vNone {
+			out.Violation("tamper/save-adopted-unvalidated-ticket", "a save wrote the session under a ticket whose cookie does not validate",
+				map[string]interface{}{"mutation": m.label, "key": written})
+		}
+		// leave the store as it was: entries written under fresh tickets are dropped
+		if written != "" && written != vPresentedTicketID(name, own) {
+			_ = e.redis.Del(context.Background(), written)
+		}
+		out.Stat("saves", 1)
 	}
 	out.Stat("loads", 1)
 	if accepted {
@@ -657,6 +689,39 @@ func vLoadCase(out *vEmitter, e *vEnv, host string, m vMut, own []vNV, sOwn *ses
 				map[string]interface{}{"mutation": m.label, "store_redis": e.redis != nil, "user": got.User, "cookies": len(pcs)})
 		}
 	}
+}
+
+// vPresentedTicketID decodes, WITHOUT validating anything, the ticket id the first cookie of that name claims.
+func vPresentedTicketID(name string, cs []vNV) string {
+	for _, c := range cs {
+		if c.n != name {
+			continue
+		}
+		first := strings.SplitN(c.v, "|", 2)[0]
+		var raw []byte
+		var err error
+		for _, enc := range []*base64.Encoding{base64.URLEncoding, base64.RawURLEncoding, base64.StdEncoding, base64.RawStdEncoding} {
+			if raw, err = enc.DecodeString(first); err == nil {
+				break
+			}
+		}
+		if err != nil {
+			return ""
+		}
+		parts := strings.Split(string(raw), ".")
+		switch {
+		case len(parts) == 2:
+			return parts[0]
+		case len(parts) == 3 && parts[0] == "v2":
+			id, err := base64.RawURLEncoding.DecodeString(parts[1])
+			if err != nil {
+				return ""
+			}
+			return string(id)
+		}
+		return ""
+	}
+	return ""
 }
 
 // vCsrfTamper: the same alterations on CSRF cookies through cookies.LoadCSRFCookie.
